@@ -412,7 +412,12 @@ JANET_CORE_FN(cfun_string_replace,
         return janet_stringv(s.kmp.text, s.kmp.textlen);
     }
     JanetByteView subst = janet_text_substitution(&s.subst, s.kmp.text + result, s.kmp.patlen, NULL);
-    buf = janet_string_begin(s.kmp.textlen - s.kmp.patlen + subst.len);
+    int64_t newlen = (int64_t) s.kmp.textlen - s.kmp.patlen + subst.len;
+    if (newlen > INT32_MAX) {
+        kmp_deinit(&s.kmp);
+        janet_panic("result string is too long");
+    }
+    buf = janet_string_begin((int32_t) newlen);
     safe_memcpy(buf, s.kmp.text, result);
     safe_memcpy(buf + result, subst.bytes, subst.len);
     safe_memcpy(buf + result + subst.len,
